@@ -297,6 +297,31 @@ def map_of_schema(
     return ret
 
 
+def _enum_value(match: Any) -> Serializable:
+    match_t = type(match)
+    if (
+        match_t is str
+        or match_t is int
+        or match_t is None
+        or match_t is float
+        or match_t is bool
+    ):
+        choice: Serializable = match
+    elif match_t is date:
+        choice = match.isoformat()
+    elif match_t is datetime:
+        choice = match.isoformat()
+    elif match_t is Decimal:
+        choice = str(match)
+    elif match_t is UUID:
+        choice = str(match)
+    elif match_t is bytes:
+        choice = match.decode("utf-8")
+    else:
+        raise TypeError(f"got unexpected type: {type(match)}")
+    return choice
+
+
 def generate_schema_predicate(
     pred: Union[Predicate[Any], PredicateAsync[Any]]
 ) -> Dict[str, Serializable]:
@@ -310,7 +335,7 @@ def generate_schema_predicate(
     elif isinstance(pred, ExactLength):
         return {"minLength": pred.length, "maxLength": pred.length}
     elif isinstance(pred, Choices):
-        return {"enum": (list(sorted(pred.choices)))}
+        return {"enum": [_enum_value(choice) for choice in sorted(pred.choices)]}
     elif isinstance(pred, NotBlank):
         return {"pattern": r"^(?!\s*$).+"}
     elif isinstance(pred, RegexPredicate):
@@ -365,29 +390,7 @@ def generate_schema_predicate(
             )
     elif isinstance(pred, EqualTo):
         # todo: is there a better way to do this than using enum?
-        match_t = type(pred.match)
-        if (
-            match_t is str
-            or match_t is int
-            or match_t is None
-            or match_t is float
-            or match_t is bool
-        ):
-            choice = pred.match
-        elif match_t is date:
-            choice = pred.match.isoformat()
-        elif match_t is datetime:
-            choice = pred.match.isoformat()
-        elif match_t is Decimal:
-            choice = str(pred.match)
-        elif match_t is UUID:
-            choice = str(pred.match)
-        elif match_t is bytes:
-            choice = pred.match.decode("utf-8")
-        else:
-            raise TypeError(f"got unexpected type: {type(pred.match)}")
-
-        return {"enum": [choice]}
+        return {"enum": [_enum_value(pred.match)]}
     # objects
     elif isinstance(pred, MinKeys):
         return {"minProperties": pred.size}
